@@ -287,13 +287,21 @@ func (e *Engine) arrayOp(n *Node, op *Op) error {
 		// append enough medium-sized elements to add about 8..63 leaves (reaches index slabs with
 		// >= 32 children and a third tree level at every slab size)
 		leaves := 8 + int(op.P%56)
-		el := e.strLen(1, 0, 0, e.MaxArrElem) + 2
+		z := 1
+		if op.P%5 == 0 {
+			// wide: 130..249 leaves of few large elements - one index slab with more than 128 children when the
+			// slab size allows it, a fourth tree level when it does not
+			leaves = 130 + int(op.P/5%120)
+			z = 2
+			e.Stats.label("grow_wide")
+		}
+		el := e.strLen(z, 0, 0, e.MaxArrElem) + 2
 		total := leaves * int(e.Cfg.Slab) / el
 		if total > 8000 {
 			total = 8000
 		}
 		for i := 0; i < total; i++ {
-			v, m, err := e.mk(&VD{K: "s", Z: 1, N: op.P + uint64(i)}, n.Addr, e.MaxArrElem, 9)
+			v, m, err := e.mk(&VD{K: "s", Z: z, N: op.P + uint64(i)}, n.Addr, e.MaxArrElem, 9)
 			if err != nil {
 				return err
 			}
@@ -613,12 +621,22 @@ func (e *Engine) mapOp(n *Node, op *Op) error {
 		}
 		leaves := 8 + int(op.P%56)
 		total := leaves * int(e.Cfg.Slab) / 24
+		wide := op.P%5 == 0
+		if wide {
+			// wide: 130..249 leaves of a few large entries each
+			leaves = 130 + int(op.P/5%120)
+			total = leaves * 3
+			e.Stats.label("grow_wide")
+		}
 		if total > 6000 {
 			total = 6000
 		}
 		for i := 0; i < total; i++ {
 			km := U64(1_000_000 + (op.P%1000)*100_000 + uint64(i))
 			vd := &VD{K: "u", N: uint64(i)}
+			if wide {
+				vd = &VD{K: "s", Z: 2, D: i%7 - 3, N: uint64(i)} // half the element limit: about 3 entries per leaf
+			}
 			if n.Dig != nil && i%4 == 0 {
 				// with colliding digests: big values, so that small collision groups are pushed out to external slabs
 				vd = &VD{K: "s", Z: 2, D: i%7 - 3, N: uint64(i)}
